@@ -1551,3 +1551,24 @@ V("r5-c03-kahn-counters-conditional-decrement", "C03", "fire", UT, _KAHN_OLD, _k
 V("r5-c03-kahn-counters-ready-le-one", "C03", "fire", UT, _KAHN_OLD, _kahn_counters(ready="pending[j] <= 1"), rule="KAHN.ready", what="ready one parent too early")
 V("r5-c03-kahn-counters-parents", "C03", "fire", UT, _KAHN_OLD, _kahn_counters(children="pa(i, A)"), rule="KAHN.children", what="walks to the parents")
 V("r5-c03-kahn-counters-no-leftover", "C03", "fire", UT, _KAHN_OLD, _kahn_counters(left="False"), rule=None, what="cycle test disabled", accept_inconclusive=True)
+
+# ---- LGANM.sample: the three intervention blocks folded into one loop over (kind, dict) records with string kinds and `continue`
+_LG_BLOCKS = ("        # Perform shift interventions\n        if shift_interventions:\n            shift_interventions = _parse_interventions(shift_interventions)\n            targets = shift_interventions[:, 0].astype(int)\n"
+              "            means[targets] += shift_interventions[:, 1]\n            variances[targets] += shift_interventions[:, 2]\n\n        # Perform noise interventions. Note that they take preference\n"
+              "        # i.e. \"override\" shift interventions\n        if noise_interventions:\n            noise_interventions = _parse_interventions(noise_interventions)\n            targets = noise_interventions[:, 0].astype(int)\n"
+              "            means[targets] = noise_interventions[:, 1]\n            variances[targets] = noise_interventions[:, 2]\n\n        # Perform do interventions. Note that they take preference\n"
+              "        # i.e. \"override\" shift and noise interventions\n        if do_interventions:\n            do_interventions = _parse_interventions(do_interventions)\n            targets = do_interventions[:, 0].astype(int)\n"
+              "            means[targets] = do_interventions[:, 1]\n            variances[targets] = do_interventions[:, 2]\n            W[:, targets] = 0\n")
+
+
+def _lg_folded(order=("shift", "noise", "do"), shift_op="+=", cut="do"):
+    recs = ", ".join('("%s", %s_interventions)' % (k, k) for k in order)
+    return ("        for kind, interventions in (%s):\n            if not interventions:\n                continue\n            interventions = _parse_interventions(interventions)\n"
+            "            targets = interventions[:, 0].astype(int)\n            if kind == \"shift\":\n                means[targets] %s interventions[:, 1]\n                variances[targets] %s interventions[:, 2]\n"
+            "                continue\n            means[targets] = interventions[:, 1]\n            variances[targets] = interventions[:, 2]\n            if kind == \"%s\":\n                W[:, targets] = 0\n" % (recs, shift_op, shift_op, cut))
+
+
+V("r5-c01-folded-kinds", "C01", "silent", LG, _LG_BLOCKS, _lg_folded(), what="one loop over (kind, dict) records, string kinds, guard clauses with continue")
+V("r5-c01-folded-kinds-do-first", "C01", "fire", LG, _LG_BLOCKS, _lg_folded(order=("do", "noise", "shift")), rule="CASES", what="folded loop, do applied first: shift lands on top of do")
+V("r5-c01-folded-kinds-shift-assigns", "C01", "fire", LG, _LG_BLOCKS, _lg_folded(shift_op="="), rule="CASES", what="folded loop, shift replaces instead of adding")
+V("r5-c01-folded-kinds-noise-cuts", "C01", "fire", LG, _LG_BLOCKS, _lg_folded(cut="noise"), rule="CASES", what="folded loop, the noise intervention cuts the edges instead of the do intervention")
